@@ -136,6 +136,12 @@ func Impl(args []string) {
 		}
 		rng := caseRng(*seed, h)
 		prevInputs := map[string]bool{}
+		// spelling v of class position i is reps[(r0[i]+v) % len(reps)]: with v = 0..k-1 every representative of a class with at
+		// most k representatives occurs at every position (boundary values such as '9' are not left to chance)
+		r0 := make([]int, len(c.Cls))
+		for i := range r0 {
+			r0[i] = rng.Intn(1 << 16)
+		}
 		for v := 0; v < *variants; v++ {
 			// spell the classes; off[i] = byte offset of class i
 			var b []byte
@@ -147,7 +153,7 @@ func Impl(args []string) {
 					os.Exit(2)
 				}
 				off[i] = len(b)
-				b = append(b, reps[rng.Intn(len(reps))]...)
+				b = append(b, reps[(r0[i]+v)%len(reps)]...)
 			}
 			off[len(c.Cls)] = len(b)
 			if prevInputs[string(b)] {
